@@ -227,6 +227,96 @@ def oracle_vectors():
     return ok
 
 
+def simproc_fidelity():
+    """SimProc against real CPython: exit status mapping, LIFO exit handlers,
+    handler exceptions ignored for the status."""
+    from sim import simproc
+    cases = {
+        "ret_none": "def main():\n    return None",
+        "ret_int": "def main():\n    return 3",
+        "ret_big": "def main():\n    return 300",
+        "sysexit_none": "def main():\n    raise SystemExit()",
+        "sysexit_int": "def main():\n    raise SystemExit(5)",
+        "sysexit_str": "def main():\n    raise SystemExit('boom')",
+        "uncaught": "def main():\n    raise ValueError('x')",
+        "handler_raises":
+        "def main():\n    import atexit\n"
+        "    atexit.register(lambda: 1/0)\n    return 0",
+        "handlers_lifo":
+        "def main():\n    import atexit\n"
+        "    atexit.register(lambda: LOG.append('a'))\n"
+        "    atexit.register(lambda: LOG.append('b'))\n    return 0",
+        "handler_after_exception":
+        "def main():\n    import atexit\n"
+        "    atexit.register(lambda: LOG.append('h'))\n"
+        "    raise KeyError('k')",
+    }
+    ok = True
+    for name, src in cases.items():
+        prog = ("import sys\nLOG=[]\n" + src + "\n"
+                "import atexit\n"
+                "atexit.register(lambda: print('LOG', ''.join(LOG)))\n"
+                "sys.exit(main())\n")
+        p = subprocess.run([PY, "-c", prog], capture_output=True, text=True)
+        real_log = next((l[4:] for l in p.stdout.splitlines()
+                         if l.startswith("LOG")), "")
+        ns = {"LOG": []}
+        exec(src, ns)
+        r = simproc.run_process(ns["main"])
+        sim_log = "".join(ns["LOG"])
+        if p.returncode != r.status or real_log != sim_log:
+            ok = False
+            print(f"simproc fidelity {name}: real status {p.returncode} log "
+                  f"{real_log!r} != sim status {r.status} log {sim_log!r}")
+    print("simproc fidelity:", "ok" if ok else "FAILED",
+          f"({len(cases)} cases vs. real subprocesses)")
+    return ok
+
+
+def simhttp_vectors():
+    """Server-model vectors written from docs/serving-data.rst / RFC 7233."""
+    from sim.simfs import SimFS
+    from sim.simhttp import SimServer
+    fs = SimFS()
+    fs.put("/simfs/d/info", b"{}")
+    fs.put("/simfs/d/k/0-4/0-4/0-4.gz", b"GZ")
+    fs.put("/simfs/d/k/0-4_0-4_4-8", b"FLAT")
+    fs.put("/simfs/d/s/0.shard", bytes(range(100)))
+    ok = True
+
+    def expect(cond, what):
+        nonlocal ok
+        if not cond:
+            ok = False
+            print("simhttp vector FAILED:", what)
+    nginx = SimServer(fs, "/simfs/d", "/ds/", "nginx")
+    st, h, b = nginx.handle("GET", "/ds/k/0-4_0-4_0-4", {})
+    expect((st, b, h.get("Content-Encoding")) == (200, b"GZ", "gzip"),
+           "nginx alias + gzip_static")
+    plain = SimServer(fs, "/simfs/d", "/ds/", "plain")
+    expect(plain.handle("GET", "/ds/k/0-4_0-4_0-4", {})[0] == 404,
+           "plain server does not rewrite")
+    expect(plain.handle("GET", "/ds/k/0-4_0-4_4-8", {})[2] == b"FLAT",
+           "plain flat chunk")
+    expect(plain.handle("GET", "/ds/../etc", {})[0] == 404, "dot-dot")
+    st, h, b = plain.handle("GET", "/ds/s/0.shard", {"Range": "bytes=10-19"})
+    expect((st, b, h["Content-Range"]) == (206, bytes(range(10, 20)),
+                                           "bytes 10-19/100"), "range")
+    st, h, b = plain.handle("GET", "/ds/s/0.shard", {"Range": "bytes=90-150"})
+    expect((st, len(b), h["Content-Range"]) == (206, 10, "bytes 90-99/100"),
+           "range clipped at EOF")
+    expect(plain.handle("GET", "/ds/s/0.shard",
+                        {"Range": "bytes=100-110"})[0] == 416,
+           "range starting at EOF")
+    for pol, want in (("416", 416), ("206", 206), ("200", 200)):
+        srv = SimServer(fs, "/simfs/d", "/ds/", "plain", pol)
+        st, h, b = srv.handle("GET", "/ds/s/0.shard", {"Range": "bytes=5-4"})
+        expect(st == want and (st != 200 or len(b) == 100),
+               f"zero-length range policy {pol}")
+    print("simhttp vectors:", "ok" if ok else "FAILED")
+    return ok
+
+
 def main():
     ap = argparse.ArgumentParser()
     ap.add_argument("--fast", action="store_true")
@@ -238,6 +328,8 @@ def main():
     ok = True
     ok &= fidelity(300 if args.fast else 3000)
     ok &= oracle_vectors()
+    ok &= simproc_fidelity()
+    ok &= simhttp_vectors()
     checks = sorted(glob.glob(os.path.join(V, "checks", "c[0-9][0-9].py")))
     if args.only:
         checks = [c for c in checks if args.only in c]
